@@ -68,3 +68,6 @@ open SamVerif.IntRange SamVerif.Assign SamVerif.Gates SamVerif.Scope SamVerif.C0
 #print axioms cycle_detected_memo
 #print axioms assign_nominal_identity
 #print axioms assign_nominal_name_only_counterexample
+#print axioms memo_pushed_keys
+#print axioms memo_nodup_invariant
+#print axioms memo_result_nodup
